@@ -47,6 +47,7 @@ class FnExec(ExprMixin, CallMixin, StmtMixin):
         self.cur_line = None
         self.paths_explored = 0
         self.max_paths = 4000
+        self._idx_cache = {}
 
     # ------------------------------------------------------------------ obligations
     def oblige(self, st: State, goal: Term, name: str, kind: str, text=None):
